@@ -1,9 +1,14 @@
-"""Sidecar contracts: RandomKCNF over the sampler's contract (C13, C10).
+"""Sidecar contracts: the random k-CNF / k-XOR generators and the clause sampler (C13, C10).
 
-sample_clauses (sets of tuples, RNG) is outside pyvc's subset: its contract is ASSUMED here and decided by the
-bounded tier of C13 (all (k,n,m) in small scope, scripted RNG).  PROVED: RandomKCNF declares exactly n variables,
-adds exactly the sampled clauses with check=False only after raising the variable count (so WF holds), and raises
-ValueError exactly for k > n (besides what the sampler refuses) - for all k, n, m.
+PROVED for all k, n, m and EVERY outcome of the random generator:
+  * sample_clauses (sparse rejection sampling with a seen-set, then the dense fallback): m pairwise distinct clauses, each over
+    k distinct variables of 1..n (increasing) and compatible with the planted assignments; ValueError exactly when fewer
+    than m such clauses exist (counting lemma: pairwise distinct valid clauses cannot outnumber the valid clauses);
+  * RandomKCNF: exactly n variables, exactly those m clauses, well formed; ValueError exactly for a negative argument, k > n
+    or m above the number of compatible clauses;
+  * RandomKXOR: exactly n variables; the satisfying assignments are the solutions of the sampled linear system; same refusals.
+ASSUMED: clause_satisfied is a pure test (psat), all_clauses enumerates each compatible clause once (navail_p of them),
+the parity sampler (sample_parities) - all decided by the bounded tier of C13 (small scope, scripted RNG).
 """
 R = 'cnfgen/families/randomformulas.py'
 
@@ -12,14 +17,26 @@ CLASSMODELS = {}
 CONTRACTS = {
     ('cnfgen/localtypes.py', 'non_negative_int'): {'inline_always': True},
     ('cnfgen/formula/basecnf.py', 'BaseCNF.update_variable_number'): {'inline_always': True},
+    (R, 'clause_satisfied'): {
+        'assumed': 'clause_satisfied(cls, assignments) is a pure test: psat(cls) - whether every planted assignment of this call satisfies the clause',
+        'params': {'cls': 'iseq', 'assignments': 'any'}, 'returns_expr': 'psat(cls)'},
+    (R, 'all_clauses'): {
+        'assumed': 'all_clauses enumerates, once each, exactly the k-clauses over 1..n (variables increasing) compatible with the planted '
+                   'assignments: navail_p(k, n) of them (itertools.combinations x product; decided by the bounded tier of C13)',
+        'params': {'k': 'int', 'n': 'int', 'planted_assignments': 'any'}, 'returns': 'cseq',
+        'ensures': ['cdistinct(result)', 'cvalid(k, n, result)', 'clen(result) == navail_p(k, n)']},
+    # the sampler itself: m pairwise distinct clauses, each over k distinct variables of 1..n (increasing) and compatible with the
+    # planted assignments, for EVERY outcome of the random generator (sparse rejection sampling, then the dense fallback);
+    # ValueError exactly when fewer than m such clauses exist
     (R, 'sample_clauses'): {
-        'assumed': 'sampler contract: exactly m clauses over variables 1..n without zero literal, or ValueError; decided by the bounded tier of C13',
+        'property': ['C13'],
         'params': {'k': 'int', 'n': 'int', 'm': 'int', 'planted_assignments': 'any'},
         'requires': ['0 <= k', 'k <= n', 'm >= 0'],
-        # sparse sampling only ever collects distinct compatible clauses, the dense fallback refuses iff fewer than m exist
+        'locals': {'clauses': 'mclist', 'sampled': 'seqset'},
         'raises': {'ValueError': 'm > navail_p(k, n)'},
         'returns': 'cseq',
-        'ensures': ['clen(result) == m', 'cmaxabs(result) <= n', 'not chaszero(result)'],
+        'loops': {0: {'inv': ['cdistinct(clauses)', 'cvalid(k, n, clauses)', 'sampled == setof(clauses)', 'clen(clauses) <= m', 't >= 0']}},
+        'ensures': ['clen(result) == m', 'cdistinct(result)', 'cvalid(k, n, result)', 'cmaxabs(result) <= n', 'not chaszero(result)'],
     },
     (R, 'RandomKCNF'): {
         'property': ['C13', 'C10'],
@@ -29,9 +46,12 @@ CONTRACTS = {
         'raises': {'ValueError': 'n < 0 or m < 0 or k < 0 or k > n or m > navail_p(k, n)'},
         'tags': {},
         'loops': {0: {'ghost_at_entry': {'S': '_iter'},
-                      'inv': ['F._clauses == ctake(S, _it)', 'F._numvar == n', 'n >= 0', 'cmaxabs(S) <= n', 'not chaszero(S)', 'clen(S) == m'],
+                      'inv': ['F._clauses == ctake(S, _it)', 'F._numvar == n', 'n >= 0', 'cmaxabs(S) <= n', 'not chaszero(S)', 'clen(S) == m',
+                              'cdistinct(S)', 'cvalid(k, n, S)'],
                       'modifies_objects': ['F'], 'modifies_fields': {'F': ['_clauses', '_numvar']}}},
         'ensures': ['result._numvar == n', 'clen(result._clauses) == m', 'cmaxabs(result._clauses) <= n', 'not chaszero(result._clauses)',
+                    # C13: m pairwise distinct clauses, each over k distinct variables of 1..n, each satisfied by every planted assignment
+                    'cdistinct(result._clauses)', 'cvalid(k, n, result._clauses)',
                     'k <= n', 'k >= 0', 'n >= 0', 'm >= 0'],
     },
     # ---- random k-XOR: the same shape over the parity sampler
